@@ -40,11 +40,17 @@ def plan(tier, seed):
     return specs
 
 
-def call(ev, mods, aliases, extra, acc, case):
+def call(ev, mods, aliases, extra, acc, case, alias_obj=None):
+    """alias_obj: a dict object the 'user' keeps re-using over several calls; `aliases` is what the user wrote into
+    it for this call (the monitor judges against that, so entries the library may have left in the object show)."""
     HUB.case = case
     kw = dict(extra)
     if aliases is not None:
         kw["aliases"] = dict(aliases)
+        if alias_obj is not None:
+            alias_obj.update(aliases)  # the user only (re)writes their own keys in their own dict
+            kw["aliases"] = alias_obj
+            HUB.alias_intent = dict(aliases)
     before = acc.counters["c17_judged"]
     try:
         ev.visualize(**kw)
@@ -99,10 +105,29 @@ def run_shard(spec, acc):
             again = {k: "Z" + v[::-1] for k, v in aliases.items()}
             call(ev, mods, again, extra, acc, dict(case, aliases=again, note="second call on the same architecture"))
             acc.count("repeated_calls_same_architecture")
+        if aliases and not use_none and all(a in mods for a in aliases) and rnd.random() < 0.4:
+            reuse_sequence(mods, imps, [aliases, {k: "Z" + v[::-1] for k, v in aliases.items()}], extra, acc)
         if rnd.random() < 0.3:
             variant(rnd, mods, imps, acc)
         if i % 173 == 0:
             acc.sample(case)
+
+
+def reuse_sequence(mods, imps, steps, extra, acc):
+    """One dict object owned by the caller is passed to several visualize calls: on the architecture, again after
+    the caller rewrote the alias strings in it, and finally on a smaller architecture that still contains every
+    aliased module.  Each call is judged against what the caller wrote into the dict for that call."""
+    from ..refmodel.names import ancestors
+
+    ev = build(mods, imps)
+    obj: dict = {}
+    for k, al in enumerate(steps):
+        call(ev, mods, al, extra, acc, {"kind": "vis-reuse", "mods": mods, "imps": imps, "steps": steps, "extra": extra, "step": k}, alias_obj=obj)
+    keep = sorted({m for a in steps[-1] for m in [a, *ancestors(a)]})
+    if len(keep) < len(mods):
+        ev2 = build(keep, [(a, b) for a, b in imps if a in keep and b in keep], check=False)
+        call(ev2, keep, steps[-1], extra, acc, {"kind": "vis-reuse", "mods": mods, "imps": imps, "steps": steps, "extra": extra, "step": "smaller architecture"}, alias_obj=obj)
+    acc.count("reused_alias_dict_sequences")
 
 
 def variant(rnd, mods, imps, acc):
@@ -133,6 +158,8 @@ def variant(rnd, mods, imps, acc):
 
 
 def replay(case, acc):
+    if case.get("kind") == "vis-reuse":
+        return reuse_sequence(case["mods"], [tuple(i) for i in case["imps"]], case["steps"], case["extra"], acc)
     ev = build(case["mods"], [tuple(i) for i in case["imps"]])
     call(ev, case["mods"], case["aliases"], case["extra"], acc, case)
 
@@ -141,7 +168,7 @@ def floors(acc, tier):
     why = []
     if acc.counters["draw_backend_calls"] == 0:
         why.append("the drawing backend was never intercepted")
-    for c, n in (("c17_judged", 1000), ("c17_unknown_alias_cases", 20), ("c17_spacing_cases", 100), ("c17_prefix_sibling_alias_cases", 50), ("c17_passthrough_kwargs", 100), ("repeated_calls_same_architecture", 50), ("variant_architectures", 50)):
+    for c, n in (("c17_judged", 1000), ("c17_unknown_alias_cases", 20), ("c17_spacing_cases", 100), ("c17_prefix_sibling_alias_cases", 50), ("c17_passthrough_kwargs", 100), ("repeated_calls_same_architecture", 50), ("variant_architectures", 50), ("reused_alias_dict_sequences", 50), ("c17_calls_with_reused_alias_object", 100)):
         if acc.counters[c] < n:
             why.append(f"{c}: only {acc.counters[c]}")
     acc.flags["exhaustive"] = bool(acc.flags.get("exhaustive_alias_subsets"))
